@@ -16,6 +16,7 @@ package main
 import (
 	"context"
 	"fmt"
+	"io"
 	"net"
 	"strconv"
 	"strings"
@@ -36,6 +37,10 @@ type gatedManager struct {
 
 func (m *gatedManager) RegisterTunnel(t *tunnel.Tunnel) error {
 	m.g.enter() // before: the slot is held, nothing is registered
+	if th := m.g.me(); th != nil && th.failNext {
+		th.failNext = false
+		return fmt.Errorf("verif: injected RegisterTunnel failure")
+	}
 	err := m.TunnelManager.RegisterTunnel(t)
 	if err == nil {
 		m.mu.Lock()
@@ -46,10 +51,23 @@ func (m *gatedManager) RegisterTunnel(t *tunnel.Tunnel) error {
 	return err
 }
 
+// hookAdapter: PrepareConnection can be made to fail for the calling thread.
+type hookAdapter struct {
+	fakeAdapter
+	fail func(kind int) bool
+}
+
+func (a hookAdapter) PrepareConnection(io.ReadWriteCloser) error {
+	if a.fail(1) {
+		return fmt.Errorf("verif: injected prepare failure")
+	}
+	return nil
+}
+
 type slotCase struct {
 	limit int
 	n     int
-	sched [][2]int // (0 = step | 1 = close, connection)
+	sched [][2]int // (0 = step | 1 = close | 2 = step whose injectable call fails, connection)
 }
 
 func parseSlot(cs string) (*slotCase, bool) {
@@ -64,7 +82,7 @@ func parseSlot(cs string) (*slotCase, bool) {
 	}
 	k := &slotCase{limit: int(lim)}
 	for _, t := range f[5:] {
-		if len(t) < 2 || (t[0] != 's' && t[0] != 'c') {
+		if len(t) < 2 || (t[0] != 's' && t[0] != 'c' && t[0] != 'f') {
 			return nil, false
 		}
 		i, err := strconv.ParseUint(t[1:], 10, 8)
@@ -74,6 +92,8 @@ func parseSlot(cs string) (*slotCase, bool) {
 		kind := 0
 		if t[0] == 'c' {
 			kind = 1
+		} else if t[0] == 'f' {
+			kind = 2
 		}
 		k.sched = append(k.sched, [2]int{kind, int(i)})
 		if int(i)+1 > k.n {
@@ -97,8 +117,20 @@ func execSlot(cs string) (obs string) {
 	ctx, cancel := context.WithCancel(context.Background())
 	defer cancel()
 	g := newGate()
-	cl := &fakeClient{ctx: ctx, dialed: map[uint64]net.Conn{}}
-	h := mapping.NewBaseMappingHandler(cl, config.MappingConfig{MappingID: "m1", Protocol: "tcp", LocalPort: 1, MaxConnections: k.limit}, fakeAdapter{})
+	// which of the three calls between the slot and the tunnel fails is fixed by the connection number
+	fail := func(kind int) bool {
+		th := g.me()
+		if th == nil || !th.failNext || th.tid%3 != kind {
+			return false
+		}
+		th.failNext = false
+		g.mu.Lock()
+		th.res = "dfl"
+		g.mu.Unlock()
+		return true
+	}
+	cl := &fakeClient{ctx: ctx, dialed: map[uint64]net.Conn{}, fail: fail}
+	h := mapping.NewBaseMappingHandler(cl, config.MappingConfig{MappingID: "m1", Protocol: "tcp", LocalPort: 1, MaxConnections: k.limit}, hookAdapter{fail: fail})
 	defer h.Close()
 	real := h.GetTunnelManager()
 	gm := &gatedManager{TunnelManager: real, g: g, byGid: map[uint64]*tunnel.Tunnel{}}
@@ -174,14 +206,22 @@ func execSlot(cs string) (obs string) {
 			if st != 1 {
 				continue // finished (or never to return): the step does nothing
 			}
+			th.failNext = e[0] == 2 && phase[i] < 2
+			failing := th.failNext
 			g.release(th)
 			g.quiesce(threads)
 			g.mu.Lock()
 			st, res := th.state, th.res
+			th.res = ""
 			g.mu.Unlock()
+			th.failNext = false
 			phase[i]++
 			n := real.CountTunnels()
 			switch {
+			case res == "dfl" && phase[i] == 1 && st == 2:
+				evs = append(evs, fmt.Sprintf("dfl.%d.%d", i, n))
+			case failing && phase[i] == 2 && st == 2 && res == "":
+				evs = append(evs, fmt.Sprintf("rfl.%d.%d", i, n))
 			case res != "":
 				evs = append(evs, fmt.Sprintf("%s.%d", res, i))
 			case phase[i] == 1 && st == 1:
